@@ -731,16 +731,12 @@ func (s *BaseNodeService) processMessage(message storage.Message) (*types.Operat
 				}
 			}
 			//if we have an error during signing procedure, start a new signing procedure
-			_, fsmDump, err := fsmInstance.Do(sif.EventSigningRestart, requests.DefaultRequest{
+			// (persisted with the round when the message has been accepted; a refused message leaves
+			// the stored round as it was)
+			if _, _, err := fsmInstance.Do(sif.EventSigningRestart, requests.DefaultRequest{
 				CreatedAt: time.Now(),
-			})
-			if err != nil {
+			}); err != nil {
 				return nil, fmt.Errorf("failed to Do operation in FSM: %w", err)
-			}
-
-			if err := s.fsmService.SaveFSM(message.DkgRoundID, fsmDump); err != nil {
-				return nil, fmt.Errorf("failed to SaveFSM: %w", err)
-
 			}
 		}
 	}
@@ -759,15 +755,10 @@ func (s *BaseNodeService) processMessage(message storage.Message) (*types.Operat
 				fsmInstance.FSMDump().Payload.SigningProposalPayload.BatchID)
 
 			//if we have an error during signing procedure, start a new signing procedure
-			_, fsmDump, err := fsmInstance.Do(sif.EventSigningRestart, requests.DefaultRequest{
+			if _, _, err := fsmInstance.Do(sif.EventSigningRestart, requests.DefaultRequest{
 				CreatedAt: time.Now(),
-			})
-			if err != nil {
+			}); err != nil {
 				return nil, fmt.Errorf("failed to Do operation in FSM: %w", err)
-			}
-
-			if err := s.fsmService.SaveFSM(message.DkgRoundID, fsmDump); err != nil {
-				return nil, fmt.Errorf("failed to SaveFSM: %w", err)
 			}
 		}
 	}
